@@ -277,6 +277,10 @@ def check_program(case, col=None):
     return fails
 
 
+# coverage-guided stage (atheris drives these Hypothesis shards, see vf/run.py): {tier: {shard kind: (shards, executions)}}
+CG = {'thorough': {'main': (8, 3000)}}
+
+
 def plan(tier, seed, scale=1.0):
     n = max(16, int(BOUNDS[tier]["programs"] * scale))
     shards = 16 if tier == "quick" else 128
